@@ -73,6 +73,9 @@ Theorem C12_offsets_never_move_backwards : forall s a b, OffsetsP.wf_obs b -> Of
   /\ OffsetsP.off_le (Offsets.olook s b) (Offsets.olook s (Offsets.advance a b)).
 Proof. exact OffsetsP.advance_ge. Qed.
 
+Example C12_offsets_nonvacuous : OffsetsP.offsets_example_statement.
+Proof. exact OffsetsP.offsets_example. Qed.
+
 Print Assumptions C12_follower_content.
 Print Assumptions C12_exactly_once.
 Print Assumptions C12_redundant_converge.
